@@ -254,6 +254,8 @@ func check(id, tier string) int {
 	os.MkdirAll(outDir, 0o755)
 
 	status := 0
+	crossViol := 0
+	crossOK := false
 	// 1. stored findings of this property are replayed first
 	known := loadKnown()
 	var knownLines []string
@@ -308,6 +310,22 @@ func check(id, tier string) int {
 		}(w)
 	}
 	wg.Wait()
+	if id == "C13" {
+		// deterministic cross-process probe (two real processes, real kernel lock)
+		out, _, _ := runEngine(b.bin, 3*time.Minute, "-wsim.procprobe")
+		if i := strings.Index(out, "PROCPROBE-VIOLATION"); i >= 0 {
+			p := filepath.Join(verifDir, "replays", fmt.Sprintf("C13-procprobe-%d.json", seed))
+			os.MkdirAll(filepath.Dir(p), 0o755)
+			msg := strings.SplitN(out[i:], "\n", 2)[0]
+			pb, _ := json.MarshalIndent(map[string]interface{}{"v": 1, "property": "C13", "sim": "procprobe", "violation": map[string]string{"oracle": "C13.cross-process", "message": msg}}, "", " ")
+			os.WriteFile(p, pb, 0o644)
+			fmt.Printf("VIOLATION property=C13 replay=%s\n  oracle=C13.cross-process: %s\n", p, msg)
+			status = 1
+			crossViol = 1
+		} else if strings.Contains(out, "PROCPROBE-OK") {
+			crossOK = true
+		}
+	}
 	if cfg.race {
 		// free-running workload under the race detector (runtime monitoring part)
 		args := []string{"-wsim.prop", id, "-wsim.tier", tier, "-wsim.seed", fmt.Sprint(seed), "-wsim.race", "-wsim.out", outDir, "-wsim.budget", fmt.Sprint(tc.budget),
@@ -484,6 +502,10 @@ func check(id, tier string) int {
 
 	// 5. evidence
 	wall := time.Since(t0).Seconds()
+	if crossOK {
+		agg.Probes["cross-process-probe-ok"] = 1
+	}
+	_ = crossViol
 	writeEvidence(id, tier, seed, cfg, agg, len(states), len(inter), len(nontr), nviol+boolInt(status == 1 && nviol == 0), wall, maxWall, b.sites)
 	fmt.Printf("wsimctl: %s %s: %d runs, %d ops, %d violations, %.1fs\n", id, tier, agg.Runs, agg.Ops, nviol, wall)
 	return status
@@ -653,6 +675,16 @@ func replay(path string) int {
 	}
 	b := prepare(false)
 	defer b.clean()
+	if tr.Sim == "procprobe" {
+		out, _, _ := runEngine(b.bin, 3*time.Minute, "-wsim.procprobe")
+		fmt.Print(tail(out, 5), "\n")
+		if strings.Contains(out, "PROCPROBE-VIOLATION") {
+			abs, _ := filepath.Abs(path)
+			fmt.Printf("VIOLATION property=C13 replay=%s\n", abs)
+			return 1
+		}
+		return 0
+	}
 	abs, _ := filepath.Abs(path)
 	out, rerr, _ := runEngine(b.bin, 10*time.Minute, "-wsim.trace", abs, "-wsim.sites", filepath.Join(b.dir, "sites.json"))
 	fmt.Print(tail(out, 30), "\n")
